@@ -159,6 +159,7 @@ def one_run(cfg, prefix, expected):
         mutlog = []
         if cfg["storage"] == "ram":
             st = S.make_sched_ram_storage(sch)
+            sch.state_fn = lambda: S.ram_digest(st)
             # committed generation = renames of TOC files: track through a wrapper
             orig_rename = st.rename_file
 
@@ -172,6 +173,7 @@ def one_run(cfg, prefix, expected):
             d = os.path.join(work, "ix")
             os.makedirs(d)
             st = S.make_sched_storage(sch, d, lockreg, mutlog, supports_mmap=(cfg["storage"] == "file"))
+            sch.state_fn = lambda: S.dir_digest(d)
         ix_w = build_initial(st, cfg["compound"])
         ix_r = st.open_index()
         base_gen = ix_w.latest_generation()
@@ -289,6 +291,7 @@ def one_run(cfg, prefix, expected):
 def explore_cfg(cfg, bound, max_execs, acc):
     expected = expected_generations(cfg)
     outcomes = {}
+    allstates = set()
 
     def make_run(prefix):
         return one_run(cfg, prefix, expected)
@@ -299,6 +302,9 @@ def explore_cfg(cfg, bound, max_execs, acc):
         acc.count("traces_validated_against_impl")
         acc.count("evaluations")
         acc.count("transitions", len(sch.decisions))
+        new = sch.states - allstates
+        allstates.update(new)
+        acc.count("states", len(new))
         if any(c for c in sch.choices):
             acc.count("distinct_nontrivial")
         for kind, text in outcome["problems"]:
@@ -316,7 +322,6 @@ def explore_cfg(cfg, bound, max_execs, acc):
     stats = None
     for b in range(0, bound + 1):
         stats = S.explore(make_run, b, max_execs, on_exec)
-        acc.count("states", stats["decisions"])
         if stats["capped"]:
             break
         completed = b
